@@ -258,12 +258,19 @@ func shapeText(s shapeRow) (src string, want *topoState) {
 	if extra != "" {
 		cpdef = "%meta cpdef cpu romcode: code, romdata: mydata, execmode: ha\n"
 	}
+	if s.Kind == "hybrid" && s.What == "rom0" {
+		// (the ROM program was printed above from `code`; replace it by one that uses r0 only)
+		sb.Reset()
+		sb.WriteString("%section code .romtext iomode:async\n\tentry _start\n_start:\n\tclr r0\n\tinc r0\n\tr2o r0, o0\n\tj _start\n%endsection\n")
+	}
 	if s.Kind == "hybrid" {
 		sb.WriteString("%section rcode .ramtext iomode:async\n\tentry _rstart\n_rstart:\n")
 		for _, l := range s.Ram {
 			switch l {
 			case "inc":
 				sb.WriteString("\tinc r2\n")
+			case "inc1":
+				sb.WriteString("\tinc r1\n")
 			case "dec":
 				sb.WriteString("\tdec r1\n")
 			case "add":
